@@ -421,7 +421,7 @@ def fold_pow2(fs):
     return [z3.simplify(z3.substitute(f, *subs)) for f in fs]
 
 
-SEEDS = [0, 7, 23, 101]
+SEEDS = [0, 7, 23]
 
 
 def solve1(pc, goal, rlimit=DEFAULT_RLIMIT, use_cvc5=False, max_refine=40):
@@ -448,7 +448,7 @@ def solve1(pc, goal, rlimit=DEFAULT_RLIMIT, use_cvc5=False, max_refine=40):
     for attempt, seed in enumerate(SEEDS):
         s = z3.Solver()
         s.set('rlimit', rlimit)
-        s.set('timeout', int(os.environ.get('PYVC_TIMEOUT_MS', '60000')))
+        s.set('timeout', int(os.environ.get('PYVC_TIMEOUT_MS', '25000')))
         s.set('random_seed', seed)
         s.add(*fs)
         s.add(*ax)
@@ -629,9 +629,8 @@ def verify_unit(target, enum_assign, opts=None):
     for k in ct.loops:
         if k >= len(fi.loop_nodes):
             out['errors'].append('contract-anchor-missing: loop %s' % k)
-    for key in ct.ghost:
-        if key not in frame.ghost_used:
-            out['errors'].append('contract-anchor-missing: ghost %r' % (key,))
+    out['ghost_used'] = [repr(k) for k in ct.ghost if k in frame.ghost_used]
+    out['ghost_all'] = [repr(k) for k in ct.ghost]
     want = opts.get('clauses')
     rlimit = opts.get('rlimit', DEFAULT_RLIMIT)
     for ob in eng.obligations:
